@@ -26,6 +26,14 @@ var Templates = map[string]cat.Fn{
 	"L11": {Kind: "ctor", Rs: []cat.Result{{Ks: []string{"T4@g"}, M: "flat", N: 2, O: 1}}},
 	"L12": {Kind: "ctor", Ps: []cat.Param{{K: "T3", M: "req"}}, Rs: []cat.Result{{Ks: []string{"T5"}, M: "one"}}},
 	"L13": {Kind: "ctor", Ps: []cat.Param{{K: "T2", M: "req"}}, Rs: []cat.Result{{Ks: []string{"T0"}, M: "one"}}},
+	"L14": {Kind: "ctor", Rs: []cat.Result{{Ks: []string{"T4@g"}, M: "grp", O: 1}}},
+	"L15": {Kind: "ctor", Rs: []cat.Result{{Ks: []string{"T4@g"}, M: "grp", O: 1}}},
+	"L16": {Kind: "ctor", Rs: []cat.Result{{Ks: []string{"T4@g"}, M: "grp", O: 1}}},
+	"L17": {Kind: "ctor", Ps: []cat.Param{{K: "T0", M: "req"}}, Rs: []cat.Result{{Ks: []string{"T4@g"}, M: "grp", O: 1}}},
+	"L18": {Kind: "ctor", Rs: []cat.Result{{Ks: []string{"T4@g"}, M: "flat", N: 1, O: 1}}},
+	"L19": {Kind: "ctor", Ps: []cat.Param{{K: "T4@g", M: "grp", O: 1}, {K: "T4", M: "req", O: 1}}, Rs: []cat.Result{{Ks: []string{"T6"}, M: "one"}}},
+	"L20": {Kind: "ctor", Rs: []cat.Result{{Ks: []string{"T4"}, M: "one"}}},
+	"L21": {Kind: "ctor", Ps: []cat.Param{{K: "T1", M: "req"}}, Rs: []cat.Result{{Ks: []string{"T4"}, M: "one"}}},
 	"D01": {Kind: "dec", Ps: []cat.Param{{K: "T0", M: "req"}}, Rs: []cat.Result{{Ks: []string{"T0"}, M: "one"}}},
 	"D02": {Kind: "dec", Ps: []cat.Param{{K: "T4@g", M: "grp", O: 1}}, Rs: []cat.Result{{Ks: []string{"T4@g"}, M: "grp", N: 1, O: 1}}},
 	"I01": {Kind: "inv", Ps: []cat.Param{{K: "T3", M: "req"}}},
@@ -33,6 +41,7 @@ var Templates = map[string]cat.Fn{
 	"I03": {Kind: "inv", Ps: []cat.Param{{K: "T7", M: "req"}}},
 	"I04": {Kind: "inv", Ps: []cat.Param{{K: "T1", M: "req"}}},
 	"I05": {Kind: "inv", Ps: []cat.Param{{K: "T4@g", M: "grp", O: 1}}},
+	"I07": {Kind: "inv", Ps: []cat.Param{{K: "T4@g", M: "grp", O: 1}, {K: "T4", M: "opt", O: 1}}},
 	"I06": {Kind: "inv", Ps: []cat.Param{{K: "T5", M: "req"}, {K: "T2", M: "opt", O: 1}}},
 }
 
